@@ -205,5 +205,7 @@ def tasks(tier):
             ts.append(Task(f'execute.{side}.{kind}', t_execute(side, kind), extra=x, overrides=dict(ov)))
     for side in ('buy', 'sell'):
         ts.append(Task(f'cancel-after-other.{side}', t_cancel_after_other(side), extra=x, overrides=dict(ov)))
+    import props.C03 as P3
+    ts.append(Task('init.spot', P3.t_init('spot'), extra=dict(x, spec_mod=P3.SPEC), overrides=dict(ov)))
     ts.append(Task('float-boundary', t_float_boundary, extra=dict(x, bounded='1024 decimal histories on the grid 0.05..3.3 (native, binary floats vs exact model)')))
     return ts
